@@ -85,7 +85,7 @@ def api_for(cl, rl):
 
 def cfg_key(c):
     return (c['part'], c['kind'], c['fsci'], c['fwi'], c['cl'], c['rl'],
-            c['dev'])
+            c['dev'], c.get('ats_form', 'abc'))
 
 
 def grid(tier):
@@ -108,6 +108,16 @@ def grid(tier):
                         cfgs.append(dict(part='main', kind=kind, fsci=fsci,
                                          fwi=fwi, cl=ls[ci], rl=ls[ri],
                                          dev='std', k=2 if thin else k))
+    # Type 4A activation with every subset of TA(1)/TB(1)/TC(1) in the ATS
+    # (TA(1) and the historical bytes carry values whose high nibble would
+    # give another FWI if taken for TB(1))
+    for form in ('', 'a', 'b', 'c', 'ab', 'ac', 'bc', 'abc'):
+        for fwi in ((4, 10) if 'b' in form else (4,)):
+            for fsci in (2, 8):
+                n = simpicc.frame_size(fsci) - 3
+                cfgs.append(dict(part='main', kind='A', fsci=fsci, fwi=fwi,
+                                 cl=1, rl=n + 1, dev='std', k=2,
+                                 ats_form=form))
     # empty command (transceive only), device frame limit below FSC, bad card
     for kind in 'AB':
         for fsci in (0, 2, 8):
@@ -188,6 +198,10 @@ def run_one(cfg, ch):
                              sw=b'\x90\x00' if use_sw else None)
     card = simpicc.Picc(app, kind=cfg['kind'], fsci=cfg['fsci'],
                         fwi=cfg['fwi'], chooser=ch, wtx=True)
+    if 'ats_form' in cfg:
+        card.ats_form = cfg['ats_form']
+        card.ats_ta = 0xC4            # as TB(1) it would read FWI 12
+        card.ats_hist = b'\xE1\x80'   # as TB(1) it would read FWI 14
     if cfg['part'] == 'badcard':
         card.wtx_inf = b''
     if cfg['dev'] == 'small':
